@@ -31,6 +31,22 @@ type c19Case struct {
 	// ViaText: the calendar is written as iCalendar text and parsed by
 	// go-ical before validation (instead of being built in memory).
 	ViaText bool `json:"via_text,omitempty"`
+	// Extras: content the rule does not look at and that therefore must not
+	// change the verdict: "tzid-match" / "tzid-other" (every non-VTIMEZONE
+	// component has DTSTART;TZID=Europe/Paris, the TZID of the VTIMEZONEs
+	// here, resp. a TZID no VTIMEZONE defines), "valarm" (a VALARM without UID
+	// nested in every VEVENT/VTODO), "x-method" (a calendar property
+	// X-METHOD, which is not METHOD), "props" (SUMMARY, RRULE, ATTENDEE ...).
+	Extras []string `json:"extras,omitempty"`
+}
+
+func (cs c19Case) has(x string) bool {
+	for _, e := range cs.Extras {
+		if e == x {
+			return true
+		}
+	}
+	return false
 }
 
 var c19Types = []string{"VEVENT", "VTODO", "VJOURNAL", "VFREEBUSY", "VTIMEZONE"}
@@ -78,6 +94,9 @@ func c19Build(cs c19Case) (*ical.Calendar, error) {
 		if cs.Method {
 			sb.WriteString("METHOD:" + cs.MethodVal + "\r\n")
 		}
+		if cs.has("x-method") {
+			sb.WriteString("X-METHOD:PUBLISH\r\nCALSCALE:GREGORIAN\r\nX-WR-CALNAME:METHOD\r\n")
+		}
 		for _, c := range cs.Comps {
 			sb.WriteString("BEGIN:" + c.Type + "\r\n")
 			if c.UID != "" || c.RawUID {
@@ -91,6 +110,18 @@ func c19Build(cs c19Case) (*ical.Calendar, error) {
 				sb.WriteString("TZID:Europe/Paris\r\nBEGIN:STANDARD\r\nDTSTART:19701025T030000\r\nTZOFFSETFROM:+0200\r\nTZOFFSETTO:+0100\r\nEND:STANDARD\r\n")
 			} else {
 				sb.WriteString("DTSTAMP:20200101T000000Z\r\n")
+				if cs.has("tzid-match") {
+					sb.WriteString("DTSTART;TZID=Europe/Paris:20200101T100000\r\n")
+				}
+				if cs.has("tzid-other") {
+					sb.WriteString("DTSTART;TZID=America/Nowhere:20200101T100000\r\nDUE;TZID=\"Mars/Olympus Mons\":20200102T100000\r\n")
+				}
+				if cs.has("props") {
+					sb.WriteString("SUMMARY:method uid\\, vtimezone\r\nRRULE:FREQ=DAILY;COUNT=3\r\nATTENDEE;CN=UID:mailto:uid@example.com\r\nX-UID:other\r\nRELATED-TO:u2\r\n")
+				}
+				if cs.has("valarm") && (c.Type == "VEVENT" || c.Type == "VTODO") {
+					sb.WriteString("BEGIN:VALARM\r\nACTION:DISPLAY\r\nTRIGGER:-PT5M\r\nDESCRIPTION:x\r\nEND:VALARM\r\n")
+				}
 			}
 			sb.WriteString("END:" + c.Type + "\r\n")
 		}
@@ -100,6 +131,11 @@ func c19Build(cs c19Case) (*ical.Calendar, error) {
 	cal := ical.NewCalendar()
 	cal.Props.SetText(ical.PropVersion, "2.0")
 	cal.Props.SetText(ical.PropProductID, "-//verif//EN")
+	if cs.has("x-method") {
+		cal.Props.SetText("X-METHOD", "PUBLISH")
+		cal.Props.SetText(ical.PropCalendarScale, "GREGORIAN")
+		cal.Props.SetText("X-WR-CALNAME", "METHOD")
+	}
 	if cs.Method {
 		mp := ical.NewProp(ical.PropMethod)
 		mp.Value = cs.MethodVal
@@ -120,6 +156,34 @@ func c19Build(cs c19Case) (*ical.Calendar, error) {
 		}
 		if c.Type == "VTIMEZONE" {
 			comp.Props.SetText(ical.PropTimezoneID, "Europe/Paris")
+		} else {
+			tzProp := func(name, tzid, v string) {
+				p := ical.NewProp(name)
+				p.Params.Set(ical.ParamTimezoneID, tzid)
+				p.Value = v
+				comp.Props.Add(p)
+			}
+			if cs.has("tzid-match") {
+				tzProp(ical.PropDateTimeStart, "Europe/Paris", "20200101T100000")
+			}
+			if cs.has("tzid-other") {
+				tzProp(ical.PropDateTimeStart, "America/Nowhere", "20200101T100000")
+				tzProp(ical.PropDue, "Mars/Olympus Mons", "20200102T100000")
+			}
+			if cs.has("props") {
+				comp.Props.SetText(ical.PropSummary, "method uid, vtimezone")
+				rr := ical.NewProp(ical.PropRecurrenceRule)
+				rr.Value = "FREQ=DAILY;COUNT=3"
+				comp.Props.Set(rr)
+				comp.Props.SetText("X-UID", "other")
+				comp.Props.SetText(ical.PropRelatedTo, "u2")
+			}
+			if cs.has("valarm") && (c.Type == "VEVENT" || c.Type == "VTODO") {
+				al := ical.NewComponent(ical.CompAlarm)
+				al.Props.SetText(ical.PropAction, "DISPLAY")
+				al.Props.SetText(ical.PropDescription, "x")
+				comp.Children = append(comp.Children, al)
+			}
 		}
 		cal.Children = append(cal.Children, comp)
 	}
@@ -413,6 +477,65 @@ func c19Run(c *fw.Ctx) {
 		}
 	}
 	rec3(nil)
+	// Content the rule does not look at (TZID parameters with and without a
+	// VTIMEZONE defining them, before or after their use; nested VALARMs;
+	// calendar properties that merely resemble METHOD; ordinary properties):
+	// every sequence of <= 3 components, each extras set, both build paths.
+	extraSets := [][]string{{"tzid-match"}, {"tzid-other"}, {"valarm"}, {"x-method"}, {"props"}, {"tzid-match", "tzid-other", "valarm", "x-method", "props"}}
+	var rec4 func(prefix []c19Comp)
+	rec4 = func(prefix []c19Comp) {
+		for _, ex := range extraSets {
+			for _, m := range []bool{false, true} {
+				if c.Mine(idx) {
+					cs := c19Case{Method: m, MethodVal: "PUBLISH", Comps: append([]c19Comp(nil), prefix...), Extras: ex}
+					c19Exec(c, cs)
+					cs.ViaText = true
+					c19Exec(c, cs)
+					c.Observe("universe", "irrelevant-content-variants", 2)
+				}
+				idx++
+			}
+		}
+		if len(prefix) == 3 {
+			return
+		}
+		for _, t := range c19Types {
+			for _, u := range uids {
+				rec4(append(prefix, c19Comp{Type: t, UID: u}))
+			}
+		}
+	}
+	rec4(nil)
+	// UIDs are compared as the strings they are: pairs of different values
+	// that some notion of "similar" would merge (letter case, also inside a
+	// UUID; surrounding or inner white space; one a prefix of the other;
+	// composed vs. decomposed accents; look-alike letters; long common
+	// prefixes), in every layout of two or three UID-carrying components.
+	uidPairs := [][2]string{
+		{"5b3f1b4c-9a7e-4d21-8c0f-6e2a9d1c7b30", "5B3F1B4C-9A7E-4D21-8C0F-6E2A9D1C7B30"}, {"5b3f1b4c-9a7e-4d21-8c0f-6e2a9d1c7b30", "5b3f1b4c-9a7e-4d21-8c0f-6e2a9d1c7B30"},
+		{"urn:uuid:5b3f1b4c-9a7e-4d21-8c0f-6e2a9d1c7b30", "urn:uuid:5B3F1B4C-9A7E-4D21-8C0F-6E2A9D1C7B30"}, {"abc", "ABC"}, {"u1", "U1"}, {"u1", "u1 "}, {" u1", "u1"}, {"u 1", "u1"}, {"u1", "u10"},
+		{"u1", "u1\tx"}, {"\u00e9", "e\u0301"}, {"a", "\u0430"}, {"user@example.com", "user@EXAMPLE.com"}, {"0", "00"}, {"1", "1.0"}, {"x-" + strings.Repeat("k", 254), "x-" + strings.Repeat("k", 255)},
+		{strings.Repeat("p", 64) + "a", strings.Repeat("p", 64) + "b"}, {"u1", "u1\u200b"}, {"uid", "UID"}, {"null", "nil"},
+	}
+	for _, pr := range uidPairs {
+		a, b := pr[0], pr[1]
+		layouts := [][]c19Comp{
+			{{Type: "VEVENT", UID: a}, {Type: "VEVENT", UID: b}}, {{Type: "VEVENT", UID: b}, {Type: "VEVENT", UID: a}},
+			{{Type: "VEVENT", UID: a}, {Type: "VEVENT", UID: a}}, {{Type: "VEVENT", UID: b}, {Type: "VEVENT", UID: b}, {Type: "VEVENT", UID: b}},
+			{{Type: "VTIMEZONE"}, {Type: "VTODO", UID: a}, {Type: "VTODO", UID: b}}, {{Type: "VTODO", UID: a}, {Type: "VTODO"}, {Type: "VTODO", UID: b}},
+			{{Type: "VEVENT", UID: a}, {Type: "VEVENT", UID: a}, {Type: "VEVENT", UID: b}}, {{Type: "VTIMEZONE", UID: a}, {Type: "VEVENT", UID: b}}, {{Type: "VJOURNAL", UID: b}},
+		}
+		for _, l := range layouts {
+			if c.Mine(idx) {
+				c19Exec(c, c19Case{Comps: l})
+				if !strings.ContainsAny(a+b, "\t") && strings.TrimSpace(a) == a && strings.TrimSpace(b) == b {
+					c19Exec(c, c19Case{Comps: l, ViaText: true})
+				}
+				c.Observe("universe", "similar-uid-pairs", 1)
+			}
+			idx++
+		}
+	}
 	// The verdict is a function of the calendar as it is NOW: validate, edit
 	// the same object in place (same number of components), validate again.
 	c19Revalidate(c, &idx)
